@@ -1060,6 +1060,62 @@ def g6_names(repo):
     return "\n\n".join(out) + "\n"
 
 
+# ---------------------------------------------------------------- G8: public signatures (C04, static half)
+def g8_sigs(repo):
+    """every `pub struct` (with its fields) and every `pub fn` signature (with the header of the impl block it
+       sits in) of src/lib.rs and src/iter.rs, test items and hooks removed, as normalised token text"""
+    out = []
+    for rel in ("src/lib.rs", "src/iter.rs"):
+        with open(os.path.join(repo, rel)) as f:
+            toks = lex(f.read())
+        toks, _ = strip_attr_items(toks, lambda a: a[:1] == [("ident", "test")] or
+                                   (a[:1] == [("ident", "cfg")] and ("ident", "test") in a))
+        impl_stack = []      # (closing index, header text)
+        i = 0
+        while i < len(toks):
+            k, v = toks[i]
+            while impl_stack and i > impl_stack[-1][0]:
+                impl_stack.pop()
+            if (k, v) == ("ident", "impl") and (i == 0 or toks[i - 1][1] in (";", "}", "]", "{")):
+                j = i
+                while toks[j] != ("op", "{"):
+                    j += 1
+                impl_stack.append((matching(toks, j, "{", "}"), norm(toks[i:j])))
+                i = j + 1
+                continue
+            if (k, v) == ("ident", "pub") and i + 1 < len(toks):
+                j = i + 1
+                while toks[j][1] in ("unsafe", "const", "extern") or toks[j][0] == "str":
+                    j += 1
+                if toks[j] == ("ident", "fn"):
+                    e = j
+                    depth = 0
+                    while not (toks[e][1] in ("{", ";") and depth == 0):
+                        if toks[e][1] in "([":
+                            depth += 1
+                        elif toks[e][1] in ")]":
+                            depth -= 1
+                        e += 1
+                    ctx = impl_stack[-1][1] if impl_stack else "-"
+                    out.append((rel, ctx, norm(toks[i:e])))
+                    i = e
+                    continue
+                if toks[j] == ("ident", "struct"):
+                    e = j
+                    while toks[e][1] not in ("{", ";", "("):
+                        e += 1
+                    if toks[e] == ("op", "{"):
+                        e = matching(toks, e, "{", "}") + 1
+                    elif toks[e] == ("op", "("):
+                        e = matching(toks, e, "(", ")") + 1
+                    out.append((rel, "-", norm(toks[i:e])))
+                    i = e
+                    continue
+            i += 1
+    body = ";\n    ".join("(%s, %s, %s)" % (coq_str(a), coq_str(b), coq_str(c)) for a, b, c in out)
+    return "Definition crate_sigs : list (string * string * string) :=\n  [ " + body + " ].\n"
+
+
 # ---------------------------------------------------------------- G7: cost copies (C20)
 def cost_copy(text, origin):
     """the same definitions compiled against CursorC.v (cursor with work counters) instead of Cursor.v"""
@@ -1160,6 +1216,13 @@ def main():
                 g6_names(repo))
 
     gen("Names.v", names)
+
+    def sigs():
+        return (HEADER % "src/lib.rs, src/iter.rs (public structs and fn signatures)" +
+                "From Coq Require Import List String.\nImport ListNotations.\nLocal Open Scope string_scope.\n\n" +
+                g8_sigs(repo))
+
+    gen("Sigs.v", sigs)
 
     coqdir = os.path.dirname(os.path.abspath(outdir))
 
